@@ -682,6 +682,11 @@ impl<'tcx> Cx<'tcx> {
             );
             let gens = tcx.generics_of(did);
             let _ = write!(out, ",\"generic\":{}", gens.requires_monomorphization(tcx));
+            if gens.requires_monomorphization(tcx) {
+                // names of all generic parameters (parents first), positionally aligned with a call site's generic arguments
+                let names: Vec<String> = (0..gens.count()).map(|i| esc(gens.param_at(i, tcx).name.as_str())).collect();
+                let _ = write!(out, ",\"gparams\":[{}]", names.join(","));
+            }
         }
         let body: &Body<'tcx> = match kind {
             "const" => {
